@@ -298,8 +298,6 @@ Proof.
   - right. now apply IH.
 Qed.
 
-Definition clear_of (ex : list (string * Z)) (op : string) (s t : Z) : bool :=
-  forallb (fun e => negb (String.eqb (fst e) op && (s <? snd e) && (snd e <=? t))) ex.
 
 Lemma clear_of_excepted : forall ex op s t k, clear_of ex op s t = true -> s <= k < t -> excepted ex op k = false.
 Proof.
